@@ -69,7 +69,7 @@ def lean_stage(pid):
     res["obligations"] = len(names)
     targets = ["aqdriver"]
     if names:
-        targets.append(f"AquaVerif.Properties.{pid}")
+        targets += [f"AquaVerif.Properties.{nm}" for nm in leanbuild.property_files(pid)]
     p = subprocess.run(["lake", "build"] + targets, cwd=proto.LEAN_DIR, stdout=subprocess.PIPE,
                        stderr=subprocess.STDOUT)
     log = p.stdout.decode(errors="replace")
